@@ -577,7 +577,7 @@ type c11Stats struct {
 	scopeDirectives, relocated, callsWithArgs, forwardCalls, nestedCalls, nonMinimalPkg, deferred int
 	tables, hugePkg, miscStmts, miscExprs, methodDecls, rootScopes, pkgRefs, shadowed          int
 	deepChain                                                                                   int // levels of the chain of nested devices, if any
-	homonyms                                                                                    int
+	homonyms, foreign                                                                           int
 }
 
 func c11Run(c c11Case) (fail *vlib.Failure, errLog string) {
